@@ -12,18 +12,20 @@ import (
 	"github.com/containerd/nri/pkg/api"
 )
 
-func TestF3LoneRemovalIsForwarded(t *testing.T) {
+func f3Result() *result {
 	req := &CreateContainerRequest{Container: &api.Container{
-		Id:    "c0",
-		Env:   []string{"FOO=bar"},
-		Linux: &api.LinuxContainer{Devices: []*api.LinuxDevice{{Path: "/dev/x", Type: "c", Major: 1, Minor: 2}}},
+		Id:     "c0",
+		Env:    []string{"FOO=bar"},
+		Linux:  &api.LinuxContainer{Devices: []*api.LinuxDevice{{Path: "/dev/x", Type: "c", Major: 1, Minor: 2}}},
 		Mounts: []*api.Mount{{Destination: "/mnt", Source: "/src", Type: "bind"}},
 	}}
-	r := collectCreateContainerResult(req)
+	return collectCreateContainerResult(req)
+}
+
+// F3 (devices): failed before the fix commit, passes with it.
+func TestF3LoneRemovalIsForwarded(t *testing.T) {
+	r := f3Result()
 	if err := r.adjustDevices([]*LinuxDevice{{Path: api.MarkForRemoval("/dev/x")}}, "A"); err != nil {
-		t.Fatal(err)
-	}
-	if err := r.adjustEnv([]*KeyValue{{Key: api.MarkForRemoval("FOO")}}, "A"); err != nil {
 		t.Fatal(err)
 	}
 	if err := r.adjustMounts([]*Mount{{Destination: api.MarkForRemoval("/mnt")}}, "A"); err != nil {
@@ -34,6 +36,15 @@ func TestF3LoneRemovalIsForwarded(t *testing.T) {
 	}
 	if n := len(r.reply.adjust.Linux.Devices); n != 1 {
 		t.Errorf("C03: removal of /dev/x is not forwarded to the runtime (%d device entries in the combined adjustment)", n)
+	}
+}
+
+// F3 (environment): observation only - adjustEnv is not under contract, no check reports
+// this, and it is not repaired.
+func TestF3EnvLoneRemovalIsForwarded(t *testing.T) {
+	r := f3Result()
+	if err := r.adjustEnv([]*KeyValue{{Key: api.MarkForRemoval("FOO")}}, "A"); err != nil {
+		t.Fatal(err)
 	}
 	if n := len(r.reply.adjust.Env); n != 1 {
 		t.Errorf("C03: removal of FOO is not forwarded to the runtime (%d env entries in the combined adjustment)", n)
